@@ -242,6 +242,20 @@ func (p Profile) genStep(t *rapid.T, conns int, table []Op) Step {
 		st.NoSub = p.NilSub && uni(t, "nosub", 8) == 0
 	case OpGround, OpRegion:
 		st.F = genDagazF(t, 6, false)
+		if st.Op == OpGround && uni(t, "vertical_ray", 5) < 2 {
+			// the typical query: straight down (or up) at one spot - inside the grid, on a cell
+			// boundary, on the grid's edge or far outside it
+			x := pick(t, "vx", []float32{0.5, 1, 0, 2, -0.001, 2.0001, -7.5, 7.5, 50, -50, 1000, -1000})
+			z := pick(t, "vz", []float32{0.5, 1, 0, 2, -0.001, 2.0001, -7.5, 7.5, 50, -50, 1000, -1000})
+			if uni(t, "at_sample", 2) == 0 {
+				x, z = float32((-800+uni(t, "vcx", 1601)))/100, float32((-800+uni(t, "vcz", 1601)))/100
+			}
+			y0, y1 := float32(5), float32(-5)
+			if uni(t, "upwards", 4) == 0 {
+				y0, y1 = y1, y0
+			}
+			st.F = []uint32{math.Float32bits(x), math.Float32bits(y0), math.Float32bits(z), math.Float32bits(x), math.Float32bits(y1), math.Float32bits(z)}
+		}
 		st.NoSub = p.NilSub && uni(t, "nosub", 8) == 0
 	case OpReceipt:
 		st.Name = pick(t, "rtext", []string{"", "r", "receipt-text"})
